@@ -13,7 +13,7 @@ from wannierberri.result import EnergyResult
 from wannierberri.grid import Grid
 
 PROPERTY = "C07"
-FUNCTIONS = ["wannierberri.run_grid.run (use_irred_kpt=True, symmetrize=True  vs  use_irred_kpt=False, symmetrize=False)", "run_grid.process", "Grid.get_K_list (symmetry reduction, absorb)",
+FUNCTIONS = ["TabulatorAll / TABresult.transform / KBandResult.transform / TABresult.to_grid (tabulation cases shared with C30)", "wannierberri.run_grid.run (use_irred_kpt=True, symmetrize=True  vs  use_irred_kpt=False, symmetrize=False)", "run_grid.process", "Grid.get_K_list (symmetry reduction, absorb)",
              "KpointBZparallel.star/absorb", "PointGroup.symmetrize / star", "PointSymmetry.transform_tensor/transform_reduced_vector/rotate", "Transform.__call__",
              "EnergyResult.transform/__add__/__mul__/__truediv__", "ResultDict arithmetic"]
 BOUNDS = dict(quick=dict(groups="C4z; C4z+Inversion; C2z*TimeReversal+Inversion; Mx+My; C2x+C2y (cubic cell); C3z (hexagonal cell)", grids="NKdiv 2x2x1, 2x2x2, 3x3x1 (NKFFT 1)",
@@ -24,7 +24,7 @@ EXPLANATION = ("The real run() is executed twice on a stand-in system with a rea
                "representative per orbit, made invariant under its stabiliser). z3 decides that both runs and the explicit full-grid mean agree (1e-12, |data|<=1: rotation matrices are doubles).")
 ASSUMPTIONS = ["T(gK) = g.T(K) for every group element, imposed by construction through the real transform_tensor (the statement 'declared = actual parity' is C08, the group action is C09)",
                "grid compatible with the group (run() itself asserts this)", "|data| <= 1 for the tolerance obligations"]
-OUTSIDE = ["the calculators themselves (cut: per-K results are symbolic)", "tabulated per-k values (decided in the C30 harness, symmetric cases)", "refinement together with symmetry (C10)",
+OUTSIDE = ["the calculators themselves (cut: per-K results are symbolic)", "tabulated per-k values only for the small groups I, TR, I+TR (C2z, Mz*TR thorough) of the shared C30 symmetric cases", "refinement together with symmetry (C10)",
            "groups / grids beyond the stated ones"]
 STUBS = ["data_k_class stub", "calculator stub returning a covariant family of symbolic EnergyResult tensors"]
 
@@ -135,9 +135,16 @@ def case_sym(rec, gens, latt, NKdiv, rank, tTR, tInv):
 GROUPS = [(["C4z"], "cubic"), (["C4z", "Inversion"], "cubic"), (["C2z*TimeReversal", "Inversion"], "cubic"), (["Mx", "My"], "cubic"), (["C2x", "C2y"], "cubic"), (["C3z"], "hex")]
 
 
+def tabulation_cases(tier):
+    """per-k values of a tabulating calculator: irreducible K-points + symmetrisation + TABresult.to_grid vs the full grid (the symmetric cases of the C30 harness,
+    run here because C07's statement includes tabulation: real run(), TabulatorAll, TABresult/KBandResult.transform, PointGroup.symmetrize, to_grid averaging)"""
+    from props import c30
+    return [Case("tabulation: " + c.name, c.fn, c.kwargs, timeout=c.timeout) for c in c30.cases(tier, 0) if c.name.startswith("symmetric")]
+
+
 def cases(tier, seed):
     q = tier == "quick"
-    out = []
+    out = tabulation_cases(tier)
     groups = GROUPS + ([] if q else [(["C6z"], "hex"), (["C4z", "Mx", "TimeReversal"], "cubic")])
     for gens, latt in groups:
         grids = [(2, 2, 1), (2, 2, 2)] if latt == "cubic" else [(3, 3, 1)]
@@ -157,6 +164,9 @@ def cases(tier, seed):
 
 def replay(rec):
     w = rec["witness"]
+    if "kind" in w and "P" in w:          # a tabulation case borrowed from the C30 harness
+        from props import c30
+        return c30.replay(rec)
     sysobj = SysG(w["gens"], LATT[w["latt"]])
     NKdiv = tuple(w["NKdiv"])
     rank, nE = w["rank"], 2
